@@ -53,6 +53,7 @@ def build() -> Check:
     c_child = "operation/child.py:ChildOperationExecutor"
     limit_v = None
     n_large = n_small = 0
+    size_keys: set[str] = set()
     for st in (ABSENT, "STARTED"):
         traces = pm.run_cell(child, st, faults=False)
         bad = []
@@ -65,6 +66,7 @@ def build() -> Check:
                 bad.append(("a result is recorded without its size having been compared with the checkpoint limit", t))
                 continue
             k, large = size[-1]
+            size_keys.add(k)
             op, lim = k.split(") ")[-1].split(" ")[0:2] if ") " in k else ("?", "?")
             limit_v = lim
             pv = succ[-1].data.get("payload_v")
@@ -93,6 +95,13 @@ def build() -> Check:
     ck.floor("large_branch_traces", n_large, 1)
     ck.floor("small_branch_traces", n_small, 1)
     ck.ob("R1.limit-is-256KiB", c_child, limit_v == str(256 * 1024), f"checkpoint size limit evaluates to {limit_v}")
+    # units (h2_C16 #1): what is measured is the text a SerDes returned - any SerDes, not only the default one whose output is ASCII. len() of a str
+    # counts characters; the limit is a byte count. The measured expression must be an encoding of the text.
+    chars = sorted(k for k in size_keys if ".encode" not in k.split(") ")[0])
+    ck.analysed["checkpoint_size_expressions"] = sorted(size_keys)
+    ck.ob("R1.limit-compared-with-bytes", c_child, not chars,
+          f"`{chars[0]}`: the number of characters of the serialized result is compared with the byte limit - with a SerDes that emits non-ASCII text "
+          "(PassThroughSerDes, json.dumps(ensure_ascii=False)) a result of up to four times the limit is recorded in full instead of being summarised" if chars else "")
 
     # R2 replay-children cell
     traces = pm.run_cell(child, "SUCCEEDED", faults=False)
